@@ -285,6 +285,65 @@ func (w *World) resolveTypeText(pkgPath, text string) (types.Type, error) {
 		}
 		return nil, fmt.Errorf("cannot resolve type %q (no package scope)", text)
 	}
+	// structural forms are resolved here so that any import of the package
+	// (in whatever file) is usable, independent of file scopes
+	switch {
+	case strings.HasPrefix(text, "*"):
+		t, err := w.resolveTypeText(pkgPath, text[1:])
+		if err != nil {
+			return nil, err
+		}
+		return types.NewPointer(t), nil
+	case strings.HasPrefix(text, "[]"):
+		t, err := w.resolveTypeText(pkgPath, text[2:])
+		if err != nil {
+			return nil, err
+		}
+		return types.NewSlice(t), nil
+	case strings.HasSuffix(text, "]") && strings.Contains(text, "[") && !strings.HasPrefix(text, "map["):
+		i := strings.Index(text, "[")
+		base, err := w.resolveTypeText(pkgPath, text[:i])
+		if err != nil {
+			return nil, err
+		}
+		var targs []types.Type
+		depth, start := 0, i+1
+		for k := i + 1; k < len(text); k++ {
+			switch text[k] {
+			case '[':
+				depth++
+			case ']':
+				if depth == 0 {
+					a, err := w.resolveTypeText(pkgPath, strings.TrimSpace(text[start:k]))
+					if err != nil {
+						return nil, err
+					}
+					targs = append(targs, a)
+				} else {
+					depth--
+				}
+			case ',':
+				if depth == 0 {
+					a, err := w.resolveTypeText(pkgPath, strings.TrimSpace(text[start:k]))
+					if err != nil {
+						return nil, err
+					}
+					targs = append(targs, a)
+					start = k + 1
+				}
+			}
+		}
+		inst, err := types.Instantiate(nil, base, targs, false)
+		if err != nil {
+			return nil, fmt.Errorf("cannot instantiate %q: %v", text, err)
+		}
+		return inst, nil
+	}
+	if strings.Count(text, ".") == 1 && !strings.ContainsAny(text, "[]* ") {
+		if t := w.lookupType(w.resolveQualified(pkgPath, text)); t != nil {
+			return t, nil
+		}
+	}
 	// build a scope that also knows the imports of all files of the package
 	tv, err := types.Eval(w.fset, p.Types, w.evalPos(p), text)
 	if err != nil {
